@@ -683,7 +683,7 @@ def rule_bonus_args(ctx):
                                 nm = str(x[1])
                                 if "Memchr2" in nm or "memchr2" in nm:
                                     srcs.add("insensitive")
-                                elif "Memchr<" in nm or "Memchr::<" in nm or nm.endswith("Memchr::new") or "memmem::find_iter" in nm or "FindIter" in nm or nm.endswith("::find_overlapping"):
+                                elif "Memchr<" in nm or "Memchr::<" in nm or nm.endswith("Memchr::new") or "memmem::find_iter" in nm or "FindIter" in nm or nm.endswith("::find_overlapping") or "memmem::Finder" in nm:
                                     srcs.add("sensitive")
                             if x[0] == "arg" and "Iterator" in fn.b["locals"][x[1]]["ty"]:
                                 srcs.add("param:" + str(x[2]))
